@@ -373,9 +373,15 @@ func getCategoryRelevanceBoost(cmd *Command, queryWords []string) float64 {
 	boost := 1.0
 	cmdLower := strings.ToLower(cmd.Command)
 
+	// Each distinct word counts once: a query that repeats a word must not compound its boost
+	// (hundreds of repeats overflowed the score to +Inf)
+	seen := make(map[string]bool, len(queryWords))
 	for _, word := range queryWords {
-		categoryBoost := getCategoryBoostForWord(word, cmdLower)
-		boost *= categoryBoost
+		if seen[word] {
+			continue
+		}
+		seen[word] = true
+		boost *= getCategoryBoostForWord(word, cmdLower)
 	}
 
 	return boost
